@@ -7,3 +7,6 @@ import "github.com/issue9/mux/v9/internal/vsync"
 // VerifSetHook installs the scheduler hook of the verification harness
 // (overlay-only file, never part of the repository).
 func VerifSetHook(h func(op int, obj uintptr)) { vsync.Hook = h }
+
+// VerifHeldLocks is the number of tree locks currently held, process-wide.
+func VerifHeldLocks() int64 { return vsync.Held() }
